@@ -27,14 +27,19 @@ func (e *vC17InjErr) Error() string { return fmt.Sprintf("injected read error %d
 type vC17Src struct {
 	segs [][]byte
 	fin  int
+	dt   bool // return the last bytes together with the final error
+}
+
+func (r *vC17Src) end() error {
+	if r.fin == 0 {
+		return io.EOF
+	}
+	return &vC17InjErr{r.fin}
 }
 
 func (r *vC17Src) Read(p []byte) (int, error) {
 	if len(r.segs) == 0 {
-		if r.fin == 0 {
-			return 0, io.EOF
-		}
-		return 0, &vC17InjErr{r.fin}
+		return 0, r.end()
 	}
 	s := r.segs[0]
 	if len(s) == 0 {
@@ -47,6 +52,9 @@ func (r *vC17Src) Read(p []byte) (int, error) {
 	n := copy(p, s)
 	if n == len(s) {
 		r.segs = r.segs[1:]
+		if r.dt && len(r.segs) == 0 {
+			return n, r.end()
+		}
 	} else {
 		r.segs[0] = s[n:]
 	}
@@ -71,7 +79,7 @@ func vC17ErrCode(err error) int {
 }
 
 // read everything the comment-aware reader delivers, rd bytes at a time, until it fails
-func vC17Drain(segs [][]byte, fin, rd int) (out []byte, code int, panicked bool) {
+func vC17Drain(segs [][]byte, fin, rd int, dt bool) (out []byte, code int, panicked bool) {
 	defer func() {
 		if r := recover(); r != nil {
 			panicked = true
@@ -79,7 +87,7 @@ func vC17Drain(segs [][]byte, fin, rd int) (out []byte, code int, panicked bool)
 	}()
 	cp := make([][]byte, len(segs))
 	copy(cp, segs)
-	r := NewJsonPlusReader(&vC17Src{segs: cp, fin: fin})
+	r := NewJsonPlusReader(&vC17Src{segs: cp, fin: fin, dt: dt})
 	if rd < 1 {
 		rd = 1
 	}
@@ -367,7 +375,7 @@ func vC17DocCase(r *vRng, items []vC17Item, tail []byte, hasTail bool) vSx {
 	if hasTail {
 		tl = vL(vB(tail))
 	}
-	return vL(vI(1), vC17ItemsSx(items), tl, vLs(vC17Lens(r, len(dec))), vI(vC17Fin(r)), vI(vC17Rd(r)))
+	return vL(vI(1), vC17ItemsSx(items), tl, vLs(vC17Lens(r, len(dec))), vI(vC17Fin(r)), vI(vC17Rd(r)), vI(r.pickInt(0, 0, 1)))
 }
 
 // a random JSON value, decorated
@@ -466,7 +474,7 @@ func vC17GenBig(r *vRng) vSx {
 	default:
 		lens = append(lens, vI(r.intn(len(dec)+1)))
 	}
-	return vL(vI(1), vC17ItemsSx(items), vL(), vLs(lens), vI(0), vI(r.pickInt(512, 4096, 100000)))
+	return vL(vI(1), vC17ItemsSx(items), vL(), vLs(lens), vI(0), vI(r.pickInt(512, 4096, 100000)), vI(r.pickInt(0, 0, 1)))
 }
 
 // malformed stream: arbitrary bytes over the marker alphabet
@@ -501,18 +509,19 @@ func vC17GenRaw(r *vRng) vSx {
 		}
 		segs = append(segs, vB([]byte("1")))
 	}
-	return vL(vI(0), vLs(segs), vI(vC17Fin(r)), vI(vC17Rd(r)))
+	return vL(vI(0), vLs(segs), vI(vC17Fin(r)), vI(vC17Rd(r)), vI(r.pickInt(0, 0, 1)))
 }
 
 // ---- one case ----
 func vC17Run(k *vKit, c vSx) {
 	bad := vL(vZ(-1))
-	if !c.isList() || len(c.l) < 4 || !c.l[0].isInt() {
+	if !c.isList() || len(c.l) < 5 || !c.l[0].isInt() {
 		k.record(c, bad, false)
 		return
 	}
 	var segs [][]byte
 	var fin, rd int
+	dt := false
 	var dec, plain []byte
 	var items []vC17Item
 	var tail []byte
@@ -523,9 +532,9 @@ func vC17Run(k *vKit, c vSx) {
 			segs = append(segs, s.b)
 			dec = append(dec, s.b...)
 		}
-		fin, rd = c.l[2].int(), c.l[3].int()
+		fin, rd, dt = c.l[2].int(), c.l[3].int(), c.l[4].int() != 0
 	case 1:
-		if len(c.l) != 6 {
+		if len(c.l) != 7 {
 			k.record(c, bad, false)
 			return
 		}
@@ -550,13 +559,13 @@ func vC17Run(k *vKit, c vSx) {
 		if len(rest) > 0 {
 			segs = append(segs, rest)
 		}
-		fin, rd = c.l[4].int(), c.l[5].int()
+		fin, rd, dt = c.l[4].int(), c.l[5].int(), c.l[6].int() != 0
 	default:
 		k.record(c, bad, false)
 		return
 	}
 
-	out, code, panicked := vC17Drain(segs, fin, rd)
+	out, code, panicked := vC17Drain(segs, fin, rd, dt)
 	var obs vSx
 	switch {
 	case panicked:
@@ -597,6 +606,7 @@ func vC17Run(k *vKit, c vSx) {
 	k.count("input-size", vSizeBucket(len(dec)))
 	k.count("segments", vSizeBucket(len(segs)))
 	k.count("result", fmt.Sprint(code))
+	k.count("data-with-error", fmt.Sprint(dt))
 	if structured {
 		k.count("comments", vSizeBucket(nComments))
 		maxTok := 0
@@ -614,7 +624,7 @@ func vC17Run(k *vKit, c vSx) {
 	}
 	// segmentation independence, directly: one read of everything gives the same result
 	if fin == 0 && code != 3 {
-		out1, code1, p1 := vC17Drain([][]byte{dec}, 0, 1<<20)
+		out1, code1, p1 := vC17Drain([][]byte{dec}, 0, 1<<20, false)
 		if p1 || code1 != code || !bytes.Equal(out1, out) {
 			fail("segmentation", fmt.Sprintf("segmented: code %d out %s; unsegmented: code %d out %s", code, show(out), code1, show(out1)))
 		}
@@ -647,7 +657,7 @@ func vC17Run(k *vKit, c vSx) {
 	}
 	cp := make([][]byte, len(segs))
 	copy(cp, segs)
-	if err := Unmarshal(&vC17Src{segs: cp, fin: 0}, &got); err != nil {
+	if err := Unmarshal(&vC17Src{segs: cp, fin: 0, dt: dt}, &got); err != nil {
 		fail("unmarshal-equal", fmt.Sprintf("Unmarshal of %s failed: %v; encoding/json decodes the undecorated text", show(dec), err))
 	} else if !reflect.DeepEqual(got, want) {
 		fail("unmarshal-equal", fmt.Sprintf("Unmarshal of %s gave %#v, encoding/json on the undecorated text gives %#v", show(dec), got, want))
